@@ -1303,6 +1303,8 @@ type farmGen struct {
 	lptShare    *big.Int
 	maxCatTried int
 	noTouch     map[string]bool // pools the random adjust/destroy intents leave alone
+	anchor      *rig.Account    // stakes into the coincident pools from their start block and never leaves before they end
+	coincN      int
 }
 
 type farmView struct {
@@ -1600,7 +1602,7 @@ func (g *farmGen) intent(v *farmView, focus *farmtypes.FarmPool) (rig.Tx, bool) 
 		}
 		f := cands[rng.Intn(len(cands))]
 		a := g.acct(f.Address)
-		if a == nil {
+		if a == nil || (a == g.anchor && !v.s.expiredAt(v.s.Pools[f.PoolId], v.h)) {
 			return rig.Tx{}, false
 		}
 		amt := randBelow(rng, bi(f.Locked))
@@ -1660,7 +1662,8 @@ func (g *farmGen) intent(v *farmView, focus *farmtypes.FarmPool) (rig.Tx, bool) 
 		if maxCat < 1 {
 			maxCat = 1
 		}
-		return g.mkCreate(v, g.pickRegime(), 3+rng.Intn(28), int64(pick(rng, 0, 0, 0, 1, 2, 5)), 1+rng.Intn(maxCat), rng.Intn(5) != 0)
+		// start offsets up to 40 blocks: pools that exist (and are queued) long before they start, e.g. at an export
+		return g.mkCreate(v, g.pickRegime(), 3+rng.Intn(28), int64(pick(rng, 0, 0, 0, 1, 2, 5, 12, 40)), 1+rng.Intn(maxCat), rng.Intn(5) != 0)
 	case 6:
 		return g.hostile(v)
 	case 7: // LP tokens change hands between users
@@ -1849,6 +1852,7 @@ func (g *farmGen) block(v *farmView, extra []rig.Tx) []rig.Tx {
 	if rng.Intn(8) == 0 {
 		n += 4 + rng.Intn(6)
 	}
+	txs = append(txs, g.coincident(v)...)
 	// pools ending in this very block attract traffic
 	var ending []farmtypes.FarmPool
 	for _, p := range v.active {
@@ -1868,6 +1872,49 @@ func (g *farmGen) block(v *farmView, extra []rig.Tx) []rig.Tx {
 		}
 	}
 	g.last = txs
+	return txs
+}
+
+// coincident builds, twice per chain, three pools that start in the next block, run for the same number of blocks and
+// therefore end in the same block: the first and the third distribute their whole budget (total = rate x life, the
+// anchor farmer stakes in the start block and stays), the second keeps a remainder for its creator. Their end-block
+// settlement exercises the refund of several pools at one height, with and without something left to refund.
+func (g *farmGen) coincident(v *farmView) []rig.Tx {
+	if g.anchor == nil || len(v.lpts) == 0 {
+		return nil
+	}
+	rng := g.run.Rng
+	var txs []rig.Tx
+	// the anchor's stakes, in the start block of pools created one block ago
+	for _, id := range sortedKeys(v.s.Pools) {
+		p := v.s.Pools[id]
+		if p.Description == "coincident" && p.StartHeight == v.h {
+			if tx, ok := g.mkStake(v, p, g.anchor, big.NewInt(int64(1000+rng.Intn(100000))), ""); ok {
+				txs = append(txs, tx)
+			}
+		}
+	}
+	if g.coincN >= 2 || v.h%29 != 11 || g.nCreated == 0 {
+		return txs
+	}
+	g.coincN++
+	cr := g.creators[0]
+	life := int64(4 + rng.Intn(5))
+	for i := 0; i < 3; i++ {
+		d := g.rew[rng.Intn(len(g.rew))]
+		rate := big.NewInt(int64(1000 + rng.Intn(900000)))
+		total := new(big.Int).Mul(rate, big.NewInt(life))
+		if i == 1 {
+			total.Add(total, big.NewInt(int64(1+rng.Intn(999))))
+		}
+		if total.Cmp(g.bal(v, cr, d)) > 0 {
+			continue
+		}
+		msg := &farmtypes.MsgCreatePool{Description: "coincident", LptDenom: v.lpts[0], StartHeight: v.h + 1, RewardPerBlock: sdk.NewCoins(coin(d, rate)), TotalReward: sdk.NewCoins(coin(d, total)), Editable: false, Creator: cr.Addr.String()}
+		txs = append(txs, g.r.Mk(cr, &farmTag{Kind: "create", Note: "coincident"}, msg))
+		g.nCreated++
+		g.run.Count("coincident-pools-created", 1)
+	}
 	return txs
 }
 
@@ -1930,13 +1977,14 @@ func farmTwinCase(tier string, c int) bool {
 }
 
 func newFarmRig(run *ev.Run, seed string) (*rig.Rig, *farmGen) {
-	r := rig.New(rig.Options{Seed: seed, NumAccounts: 12, Balances: farmBalances(rig.BondDenom, "tka", "tkb", "tkc", "rwa", "rwb", "rwc", "rwd", "rww"), InflationOff: true, InitialHeight: boundaryHeight(run.Case), SubSecond: run.Case%2 == 1})
+	r := rig.New(rig.Options{Seed: seed, NumAccounts: 13, Balances: farmBalances(rig.BondDenom, "tka", "tkb", "tkc", "rwa", "rwb", "rwc", "rwd", "rww"), InflationOff: true, InitialHeight: boundaryHeight(run.Case), SubSecond: run.Case%2 == 1})
 	g := &farmGen{run: run, r: r, tok: []string{"tka", "tkb"}, rew: []string{"rwa", "rwb", "rwc", "rwd", rig.BondDenom}, maxBits: 100, maxPools: 9, lptShare: pow2(110)}
 	g.creators = []*rig.Account{r.Acc(0), r.Acc(1)}
 	for i := 2; i <= 10; i++ {
 		g.farmers = append(g.farmers, r.Acc(i))
 	}
 	g.stranger = r.Acc(11)
+	g.anchor = r.Acc(12)
 	return r, g
 }
 
